@@ -358,6 +358,18 @@ impl Check for C02 {
                     && e.iter().zip(&o).all(|(e, o)| e == o || (e == "Bool(false)" && o == "Bool(true)"))
                     && v.expected["value"] == v.observed["value"]
             }
+            // field write on a zero-sized record with a droppable zero-sized field
+            "zero_sized_record_field_write_ice" => {
+                let layout_ok = v.case["layout"]
+                    .as_array()
+                    .is_some_and(|a| a.iter().all(|f| f == "()" || f == "Z") && a.iter().any(|f| f == "Z"));
+                let prog = v.case["program"].as_str().unwrap_or("");
+                let writes_field = (0..4).any(|k| prog.contains(&format!(".f{k} = ")));
+                v.class == "compile-panic"
+                    && layout_ok
+                    && writes_field
+                    && v.observed.as_str().is_some_and(|s| s.contains("did not find Var") && s.contains("src/codegen/mod.rs"))
+            }
             _ => false,
         }
     }
